@@ -1,5 +1,9 @@
 import Flowjaxv.Proofs.AdKernels
 import Flowjaxv.Proofs.AdRqs
+import Flowjaxv.Proofs.AdDist
+import Flowjaxv.Proofs.AdPlanar
+import Flowjaxv.Proofs.AdMix
+import Flowjaxv.Proofs.AdNet
 /-!
 # C18 — finite log-probabilities have finite gradients; log_prob is never NaN
 
@@ -17,8 +21,7 @@ open Ad EF AdT GenAst AdK
 
 namespace C18
 
-def GradFinite (env : Env EF) (e : Expr EF) : Prop :=
-  isFin (e.eval env) ∧ ∀ ct, isFin ct → AllFin (e.vjp env ct)
+abbrev GradFinite (env : Env EF) (e : Expr EF) : Prop := AdT.GradFin env e
 
 /-- a safe expression has a finite value and only finite adjoints -/
 theorem safe_gradFinite {env : Env EF} {e : Expr EF} (h : Safe env e) : GradFinite env e :=
@@ -120,6 +123,228 @@ theorem rqs_instance :
 theorem leakytanh_instance :
     GradFinite (envOf 1 [3, 0.5, 0.01] []) (LeakyTanh.inverse_and_log_det.ast X).2 :=
   (leakytanh_inverse_grad_finite 3 0.5 0.01 1 (by norm_num)).2
+
+/-! ### distribution families: generated log-density ASTs (`Gen/DistAst.lean`: the `jax.scipy.stats.*.logpdf` bodies read from
+the installed JAX and the flowjax `_log_prob` methods), wired as the constructors wire them (`Model/AdFamilies.lean`).
+Environment `envF x loc raw rawdf`: the input and the TRAINABLE leaves — `loc`, the raw scale (`scale = softplus raw`), the raw
+degrees of freedom (`df = softplus rawdf`) — so "valid parameters" is every real leaf value. -/
+open AdD AdFam
+
+/-- the public `log_prob` of EVERY distribution and flow is never NaN: whatever the private value (finite, `±∞`, NaN) in
+whatever environment, the generated last line `where(isnan(lps), -inf, lps)` does not evaluate to NaN -/
+theorem public_logprob_never_nan (env : Env EF) (lps : Expr EF) : ¬ EF.isNaN ((pub lps).eval env) :=
+  pub_never_nan env lps
+
+/-- the public post-processing keeps a gradient-finite private log-density gradient-finite (its `-inf` branch is a constant,
+which receives no cotangent) and does not change its value -/
+theorem public_logprob_grad_finite {env : Env EF} {lps : Expr EF} (h : GradFinite env lps) :
+    GradFinite env (pub lps) ∧ (pub lps).eval env = lps.eval env := by
+  obtain ⟨r, hr⟩ := isFin_iff.mp h.1
+  exact ⟨pub_gradFin h, by rw [hr]; exact pub_eval_of_fin hr⟩
+
+/-- independent dimensions: `.sum()` of per-element gradient-finite terms is gradient-finite (any number of dimensions) -/
+theorem sum_grad_finite {env : Env EF} {es : List (Expr EF)} (h : ∀ e ∈ es, GradFinite env e) :
+    GradFinite env (AdT.sumExpr es) := gradFin_sumExpr h
+
+/-- `AbstractTransformed._log_prob` (generated): finite gradients from those of the inverse point, its log-det and the base
+log-density at that point -/
+theorem transformed_logprob_grad_finite {env : Env EF} {ild : Expr EF → Expr EF × Expr EF} {base : Expr EF → Expr EF} {x : Expr EF}
+    (h1 : GradFinite env (ild x).1)
+    (h2 : GradFinite (env.set 116001 ((ild x).1.eval env)) (ild x).2)
+    (h3 : GradFinite ((env.set 116001 ((ild x).1.eval env)).set 116002 ((ild x).2.eval (env.set 116001 ((ild x).1.eval env))))
+      (base (Expr.var 116001))) :
+    GradFinite env (AbstractTransformed.log_prob.ast ild base x) := transformed_gradFin h1 h2 h3
+
+/-- the standard bases on their own (what a flow's `base_dist` evaluates): every real input -/
+theorem standard_bases_grad_finite (x df : ℝ) :
+    GradFinite (envOf x [df] []) (StandardNormal.log_prob.ast X) ∧
+    GradFinite (envOf x [df] []) (StandardGumbel.log_prob.ast X) ∧
+    GradFinite (envOf x [df] []) (StandardCauchy.log_prob.ast X) ∧
+    GradFinite (envOf x [df] []) (StandardLaplace.log_prob.ast X) ∧
+    GradFinite (envOf x [df] []) (StandardLogistic.log_prob.ast X) ∧
+    GradFinite (envOf x [df] []) (StandardStudentT.log_prob.ast (unwrapSoftplus (Expr.var 1)) X) :=
+  ⟨gradFin_of_safe (jnorm_safe (i := 0) (Or.inl (by norm_num)) rfl),
+   gradFin_of_safe (gumbel_safe (i := 0) rfl),
+   gradFin_of_safe (jcauchy_safe (i := 0) (Or.inl (by norm_num)) rfl),
+   gradFin_of_safe (jlaplace_safe (i := 0) (Or.inl (by norm_num)) rfl),
+   gradFin_of_safe (jlogistic_safe (i := 0) (Or.inl (by norm_num)) rfl),
+   gradFin_of_safe (jt_safe (i := 0) (k := 1) (Or.inl (by norm_num)) (Or.inl (by norm_num)) rfl rfl)⟩
+
+/-- `_StandardUniform`, `_StandardExponential`: finite gradients on the closed support, exactly `−∞` outside -/
+theorem bounded_bases_grad_finite (x : ℝ) :
+    (0 ≤ x → x ≤ 1 → GradFinite (envOf x [] []) (StandardUniform.log_prob.ast X)) ∧
+    (x < 0 ∨ 1 < x → (StandardUniform.log_prob.ast X).eval (envOf x [] []) = ninf) ∧
+    (0 ≤ x → GradFinite (envOf x [] []) (StandardExponential.log_prob.ast X)) ∧
+    (x < 0 → (StandardExponential.log_prob.ast X).eval (envOf x [] []) = ninf) :=
+  ⟨fun h0 h1 => juniform_gradFin (i := 0) (Or.inl (by norm_num)) rfl h0 h1,
+   fun ho => juniform_outside (i := 0) (Or.inl (by norm_num)) rfl ho,
+   fun h0 => jexpon_gradFin (i := 0) (Or.inl (by norm_num)) rfl h0,
+   fun ho => jexpon_outside (i := 0) (Or.inl (by norm_num)) rfl ho⟩
+
+/-- Normal, Gumbel, Cauchy, Laplace (incl. `x = loc`), Logistic, StudentT: PUBLIC `log_prob`, every real input and every real
+value of every trainable leaf -/
+theorem locscale_families_grad_finite (x loc raw rawdf : ℝ) :
+    GradFinite (envF x loc raw rawdf) (pub (normal X)) ∧ GradFinite (envF x loc raw rawdf) (pub (gumbel X)) ∧
+    GradFinite (envF x loc raw rawdf) (pub (cauchy X)) ∧ GradFinite (envF x loc raw rawdf) (pub (laplace X)) ∧
+    GradFinite (envF x loc raw rawdf) (pub (logistic X)) ∧ GradFinite (envF x loc raw rawdf) (pub (studentT X)) :=
+  have h := envF_fam x loc raw rawdf
+  ⟨pub_gradFin (normal_gradFin h), pub_gradFin (gumbel_gradFin h), pub_gradFin (cauchy_gradFin h),
+   pub_gradFin (laplace_gradFin h), pub_gradFin (logistic_gradFin h), pub_gradFin (studentT_gradFin h)⟩
+
+/-- Uniform(minval = loc, maxval = loc + softplus raw): finite gradients on the closed support (both ends); private and public
+value exactly `−∞` outside -/
+theorem uniform_grad_finite (x loc raw rawdf : ℝ) :
+    (loc ≤ x → x ≤ loc + sp raw → GradFinite (envF x loc raw rawdf) (pub (uniform X))) ∧
+    (x < loc ∨ loc + sp raw < x → (uniform X).eval (envF x loc raw rawdf) = ninf ∧ (pub (uniform X)).eval (envF x loc raw rawdf) = ninf) :=
+  have h := envF_fam x loc raw rawdf
+  ⟨fun h0 h1 => pub_gradFin (uniform_gradFin h h0 h1),
+   fun ho => ⟨uniform_outside h ho, pub_eval_of_ninf (uniform_outside h ho)⟩⟩
+
+/-- Exponential(rate), scale leaf `softplus raw = 1/rate`: finite gradients for `x ≥ 0` (`x = 0` included); `−∞` for `x < 0` -/
+theorem exponential_grad_finite (x loc raw rawdf : ℝ) :
+    (0 ≤ x → GradFinite (envF x loc raw rawdf) (pub (exponential X))) ∧
+    (x < 0 → (exponential X).eval (envF x loc raw rawdf) = ninf ∧ (pub (exponential X)).eval (envF x loc raw rawdf) = ninf) :=
+  have h := envF_fam x loc raw rawdf
+  ⟨fun h0 => pub_gradFin (exponential_gradFin h h0),
+   fun ho => ⟨exponential_outside h ho, pub_eval_of_ninf (exponential_outside h ho)⟩⟩
+
+/-- LogNormal (`Chain([Affine, Exp])` over a standard normal): finite gradients for every `x > 0`; for `x ≤ 0` the public value
+is not NaN by `public_logprob_never_nan` -/
+theorem lognormal_grad_finite (x loc raw rawdf : ℝ) (hx : 0 < x) :
+    GradFinite (envF x loc raw rawdf) (pub (logNormal X)) :=
+  pub_gradFin (logNormal_gradFin (envF_fam x loc raw rawdf) hx)
+
+/-- non-vacuity: Laplace at `x = loc` exactly and Uniform at its upper end `x = loc + scale` exactly -/
+theorem families_instance :
+    GradFinite (envF 1.5 1.5 (-2) 0) (pub (laplace X)) ∧ GradFinite (envF (2 + sp 3) 2 3 0) (pub (uniform X)) :=
+  ⟨(locscale_families_grad_finite 1.5 1.5 (-2) 0).2.2.2.1,
+   (uniform_grad_finite (2 + sp 3) 2 3 0).1 (by linarith [sp_pos 3]) le_rfl⟩
+
+/-! ### Planar (`_UnconditionalPlanar`, generated vector AST `Gen/VecAst.lean`), every dimension `d` -/
+open AdP AdV in
+/-- tanh activation: every element of the transformed point and the log-det have finite values and finite adjoints w.r.t. every
+element of the weight, of the raw act-scale, of the input, and the bias — for EVERY real weight `w ≠ 0`, `u`, `b`, `x` -/
+theorem planar_tanh_grad_finite {d : Nat} (w u x : List ℝ) (b s : ℝ) (hw : w.length = d) (hu : u.length = d) (hx : x.length = d)
+    (hw0 : ∃ a ∈ w, a ≠ 0) :
+    (∀ e ∈ (UnconditionalPlanar.transform_and_log_det_tanh.ast d (Vec.ofVec 2 d)).1, GradFinite (envPl w u x b s) e) ∧
+    GradFinite (envPl w u x b s) (UnconditionalPlanar.transform_and_log_det_tanh.ast d (Vec.ofVec 2 d)).2 :=
+  have h := tldT_safe (envPl_pl (b := b) (s := s) hw hu hx) (dot_ne_zero_of_exists hw0)
+  ⟨fun e he => gradFin_of_safe (h.1 e he), gradFin_of_safe h.2⟩
+
+open AdP AdV in
+/-- leaky-relu activation, forward and inverse: the same for every slope `0 < negative_slope ≤ 1` -/
+theorem planar_leaky_grad_finite {d : Nat} (w u x : List ℝ) (b s : ℝ) (hw : w.length = d) (hu : u.length = d) (hx : x.length = d)
+    (hw0 : ∃ a ∈ w, a ≠ 0) (hs0 : 0 < s) (hs1 : s ≤ 1) :
+    (∀ e ∈ (UnconditionalPlanar.transform_and_log_det_lrelu.ast d (Vec.ofVec 2 d)).1, GradFinite (envPl w u x b s) e) ∧
+    GradFinite (envPl w u x b s) (UnconditionalPlanar.transform_and_log_det_lrelu.ast d (Vec.ofVec 2 d)).2 ∧
+    (∀ e ∈ (UnconditionalPlanar.inverse_and_log_det_lrelu.ast d (Vec.ofVec 2 d)).1, GradFinite (envPl w u x b s) e) ∧
+    GradFinite (envPl w u x b s) (UnconditionalPlanar.inverse_and_log_det_lrelu.ast d (Vec.ofVec 2 d)).2 :=
+  have hp := envPl_pl (b := b) (s := s) hw hu hx
+  have h0 := dot_ne_zero_of_exists hw0
+  have h := tldL_safe hp h0 hs0 hs1
+  have h' := ildL_safe hp h0 hs0 hs1
+  ⟨fun e he => gradFin_of_safe (h.1 e he), gradFin_of_safe h.2, fun e he => gradFin_of_safe (h'.1 e he), gradFin_of_safe h'.2⟩
+
+/-- non-vacuity: dimension 2, pre-activation exactly `0` (`w·x + b = 0`, the leaky-relu kink) -/
+theorem planar_instance :
+    GradFinite (AdP.envPl [1, -2] [0.5, 3] [2, 1.5] 1 0.1)
+      (UnconditionalPlanar.transform_and_log_det_lrelu.ast 2 (Vec.ofVec 2 2)).2 :=
+  (planar_leaky_grad_finite (d := 2) [1, -2] [0.5, 3] [2, 1.5] 1 0.1 rfl rfl rfl ⟨1, by simp, by norm_num⟩
+    (by norm_num) (by norm_num)).2.1
+
+/-! ### mixtures: `logsumexp`, `log_softmax` (transcribed from JAX, maxima under `stop_gradient`) and the generated
+`VmapMixture._log_prob` / stored-weights lambda, any number of components `k ≥ 1` -/
+open AdV AdM in
+/-- `logsumexp` and `log_softmax` of a non-empty array of safe expressions with finite values are safe -/
+theorem logsumexp_grad_finite {env : Env EF} {a : List (Expr EF)} {rs : List ℝ} (hs : SafeVec env a) (he : EvalsTo env a rs) (hne : rs ≠ []) :
+    GradFinite env (Vec.logsumexp a) ∧ ∀ e ∈ Vec.logSoftmax a, GradFinite env e :=
+  ⟨gradFin_of_safe (logsumexp_safe hs he hne).1, fun e h => gradFin_of_safe ((logSoftmax_safe hs he hne).1 e h)⟩
+
+open AdV AdM in
+/-- mixture `_log_prob` over ARBITRARY component log-density expressions (so: mixtures of any distributions/flows whose
+log-densities are safe and finite at the point) and arbitrary weight expressions: finite value, finite adjoints w.r.t. everything
+the components and the weights depend on -/
+theorem mixture_grad_finite {env : Env EF} {ws lps : List (Expr EF)} {wr lr : List ℝ}
+    (hws : SafeVec env ws) (hwe : EvalsTo env ws wr) (hls : SafeVec env lps) (hle : EvalsTo env lps lr)
+    (hlen : wr.length = lr.length) (hne : lr ≠ []) :
+    GradFinite env (VmapMixture.log_prob.ast (VmapMixture.log_normalized_weights.ast ws) lps) :=
+  gradFin_of_safe (mixture_safe hws hwe hls hle hlen hne).1
+
+open AdM in
+/-- for every real raw log-weight vector and every finite component log-density vector of the same length `k ≥ 1` -/
+theorem mixture_params_grad_finite (wr lr : List ℝ) (hlen : wr.length = lr.length) (hne : lr ≠ []) :
+    GradFinite (envMix wr lr)
+      (VmapMixture.log_prob.ast (VmapMixture.log_normalized_weights.ast (Vec.ofVec 0 wr.length)) (Vec.ofVec 1 wr.length)) :=
+  gradFin_of_safe (mixture_params_safe wr lr hlen hne)
+
+/-- non-vacuity: two components with tied maxima (the `max` reductions sit under `stop_gradient`, no tie hazard) -/
+theorem mixture_instance :
+    GradFinite (AdM.envMix [5, 5] [-1, -1])
+      (VmapMixture.log_prob.ast (VmapMixture.log_normalized_weights.ast (Vec.ofVec 0 2)) (Vec.ofVec 1 2)) :=
+  mixture_params_grad_finite [5, 5] [-1, -1] rfl (by simp)
+
+/-! ### conditioner networks, coupling and masked-autoregressive layers (`Model/AdNet.lean`: hand model of `eqx.nn.MLP`,
+`Coupling`, `MaskedAutoregressive.transform_and_log_det` over the generated `Affine`/`SoftPlus`/`Loc` kernels) -/
+open AdN Ad.Net in
+/-- an MLP of any depth and widths with relu or tanh activations: for EVERY real value of every weight and bias (weights, biases
+and inputs are any expressions that are safe whatever the scalar variables hold, e.g. vector parameters; masked weights
+`where(mask, w, 0)` included) every output has a finite value and finite adjoints — relu at a pre-activation of exactly 0 included
+(`jax.nn.relu`'s rule gives 0 there) -/
+theorem mlp_grad_finite {env : Env EF} {act : Prim} (hact : act = Prim.relu ∨ act = Prim.tanh)
+    {hidden : List (Rows EF)} {last : Rows EF} {x : List (Expr EF)}
+    (hh : ∀ L ∈ hidden, ∀ r ∈ L, VSafeVec env r.1 ∧ VSafe env r.2)
+    (hl : ∀ r ∈ last, VSafeVec env r.1 ∧ VSafe env r.2) (hx : VSafeVec env x) :
+    ∀ e ∈ mlp act hidden last x, GradFinite env e := by
+  have hp : ∀ r, PrimSafe act r := by rcases hact with rfl | rfl <;> intro r <;> trivial
+  exact fun e he => gradFin_of_safe ((mlp_vsafe hp hh hl hx e he).safe)
+
+open AdN Ad.Net in
+/-- a coupling layer with the default transformer (`_affine_with_min_scale`, any `min_scale ≥ 0`), forward and inverse: every
+element of the point and the log-det have finite values and finite adjoints w.r.t. the input and every conditioner weight,
+for every conditioner `net` that maps safe inputs to safe outputs (every MLP above) -/
+theorem coupling_grad_finite {env : Env EF} {ms il ir : ℝ} (hms : 0 ≤ ms)
+    {net : List (Expr EF) → List (Expr EF)} (hnet : ∀ xs, VSafeVec env xs → VSafeVec env (net xs))
+    (u : Nat) {x : List (Expr EF)} (hx : VSafeVec env x) :
+    (∀ e ∈ (coupling u net (affineTld (Expr.const (fin ms)) · · (Expr.const (fin il)) (Expr.const (fin ir)) ·) x).1, GradFinite env e) ∧
+    GradFinite env (coupling u net (affineTld (Expr.const (fin ms)) · · (Expr.const (fin il)) (Expr.const (fin ir)) ·) x).2 ∧
+    (∀ e ∈ (coupling u net (affineIld (Expr.const (fin ms)) · · (Expr.const (fin il)) (Expr.const (fin ir)) ·) x).1, GradFinite env e) ∧
+    GradFinite env (coupling u net (affineIld (Expr.const (fin ms)) · · (Expr.const (fin il)) (Expr.const (fin ir)) ·) x).2 := by
+  have ht := coupling_vsafe (env := env) (tf := (affineTld (Expr.const (fin ms)) · · (Expr.const (fin il)) (Expr.const (fin ir)) ·))
+    (fun pl pr x h1 h2 h3 => ⟨(affine_vsafe hms h1 h2 h3).1, (affine_vsafe hms h1 h2 h3).2.1⟩) hnet u hx
+  have hi := coupling_vsafe (env := env) (tf := (affineIld (Expr.const (fin ms)) · · (Expr.const (fin il)) (Expr.const (fin ir)) ·))
+    (fun pl pr x h1 h2 h3 => ⟨(affine_vsafe hms h1 h2 h3).2.2.1, (affine_vsafe hms h1 h2 h3).2.2.2⟩) hnet u hx
+  exact ⟨fun e he => gradFin_of_safe (ht.1 e he).safe, gradFin_of_safe ht.2.safe,
+         fun e he => gradFin_of_safe (hi.1 e he).safe, gradFin_of_safe hi.2.safe⟩
+
+open AdN Ad.Net in
+/-- a masked autoregressive layer, `transform_and_log_det` (the direction `log_prob` of the default `invert=True` flow and
+`inverse_and_log_det`'s log-det use), same transformer -/
+theorem maf_grad_finite {env : Env EF} {ms il ir : ℝ} (hms : 0 ≤ ms)
+    {net : List (Expr EF) → List (Expr EF)} (hnet : ∀ xs, VSafeVec env xs → VSafeVec env (net xs))
+    {x : List (Expr EF)} (hx : VSafeVec env x) :
+    (∀ e ∈ (autoreg net (affineTld (Expr.const (fin ms)) · · (Expr.const (fin il)) (Expr.const (fin ir)) ·) x).1, GradFinite env e) ∧
+    GradFinite env (autoreg net (affineTld (Expr.const (fin ms)) · · (Expr.const (fin il)) (Expr.const (fin ir)) ·) x).2 := by
+  have ht := autoreg_vsafe (env := env) (tf := (affineTld (Expr.const (fin ms)) · · (Expr.const (fin il)) (Expr.const (fin ir)) ·))
+    (fun pl pr x h1 h2 h3 => ⟨(affine_vsafe hms h1 h2 h3).1, (affine_vsafe hms h1 h2 h3).2.1⟩) hnet hx
+  exact ⟨fun e he => gradFin_of_safe (ht.1 e he).safe, gradFin_of_safe ht.2.safe⟩
+
+open AdN Ad.Net in
+/-- non-vacuity: dimension 2, one hidden relu unit with weight 0 and bias 0 (pre-activation exactly 0), arbitrary stored values -/
+theorem coupling_instance :
+    GradFinite (envVecs [[0.3, -1.2], [0], [0], [2, -3], [0.5, 0.25]])
+      (coupling 1 (mlp Prim.relu [[(Vec.ofVec 1 1, Expr.get 2 (fun _ => 0))]]
+          [(Vec.ofVec 3 1, Expr.get 4 (fun _ => 0)), ([Expr.get 3 (fun _ => 1)], Expr.get 4 (fun _ => 1))])
+        (affineTld (Expr.const (fin 0.01)) · · (Expr.const (fin 0)) (Expr.const (fin 0.5)) ·) (Vec.ofVec 0 2)).2 := by
+  refine (coupling_grad_finite (by norm_num) (fun xs hxs => mlp_vsafe relu_total ?_ ?_ hxs) 1 (vsafeVec_ofVec _ 0 2)).2.1
+  · intro L hL r hr
+    simp only [List.mem_singleton] at hL; subst hL
+    simp only [List.mem_singleton] at hr; subst hr
+    exact ⟨vsafeVec_ofVec _ 1 1, vsafe_param _ _ _⟩
+  · intro r hr
+    simp only [List.mem_cons, List.not_mem_nil, or_false] at hr
+    rcases hr with rfl | rfl
+    · exact ⟨vsafeVec_ofVec _ 3 1, vsafe_param _ _ _⟩
+    · exact ⟨fun e he => by simp only [List.mem_singleton] at he; subst he; exact vsafe_param _ _ _, vsafe_param _ _ _⟩
 
 end C18
 end
